@@ -196,7 +196,12 @@ func runC01(c *Ctx) {
 				fb, ct := formUpload(key, body)
 				up = s.Do(&drv.Req{Method: "POST", Path: "/" + bucket, Body: fb, Header: drv.H("Content-Type", ct)})
 			case "copy":
-				srcKey := fmt.Sprintf("copy-source/%d", caseNo%3)
+				// the source key rotates through the key classes too: the copy-source header is URL-escaped
+				srcKey := "copy-source/" + c01Key(c01KeyClasses[caseNo%len(c01KeyClasses)], caseNo%3, isFs)
+				if len(srcKey) > 200 {
+					srcKey = srcKey[len(srcKey)-150:]
+					srcKey = "copy-source/" + strings.TrimLeft(srcKey, "/")
+				}
 				if pr := s.Put(bucket, srcKey, body, meta.Clone()); pr.Status != 200 {
 					r.Violation(sig("C01", backendClass(j.kind), "upload-refused", "put,"+sizeClassOf(size)), fmt.Sprintf("%s PUT of copy source (%d bytes): %s", j.kind, size, pr), respDesc(pr))
 					return
